@@ -101,6 +101,10 @@ def c13_program(rng):
         wrap = rng.randrange(5)
         core = [A.Select(inner, A.Alias("Byte")), A.Optional(inner), A.GreedyRange(A.Select(A.Const(b"\x01"), inner)),
                 A.Peek(inner), A.Select(A.Alias("Int16ub"), inner, A.Pass)][wrap]
+    if rng.random() < 0.12:
+        # the constrained member may be absent (None): the constraint still applies to what is returned
+        opt = rng.choice([A.Optional(A.Alias("Byte")), A.If(A.C(False), A.Alias("Byte")), A.Select(A.Const(b"\x07"), A.Pass), A.IfThenElse(A.C(True), A.Pass, A.Alias("Byte"))])
+        core = rng.choice([A.OneOf(opt, [1, 2]), A.NoneOf(opt, [None, 0]), A.Mapping(opt, [("absent", None), ("one", 1)]), A.OneOf(opt, [None, 7])])
     if rng.random() < 0.4:
         return A.Struct(A.Renamed("x", core), A.Renamed("t", A.Alias("Byte")))
     return core
@@ -189,7 +193,7 @@ def sys_leaves():
 def sys_wrappers():
     W = [lambda x: x,
          lambda x: A.Array(2, x), lambda x: A.Array(A.T("_params", "k"), x), lambda x: A.PrefixedArray(A.Alias("Byte"), x), lambda x: A.PrefixedArray(A.VarInt, x),
-         lambda x: A.Prefixed(A.Alias("Byte"), x), lambda x: A.Prefixed(A.Alias("Int16ul"), x, incl=True), lambda x: A.Prefixed(A.VarInt, x),
+         lambda x: A.Prefixed(A.Alias("Byte"), x), lambda x: A.Prefixed(A.Alias("Int16ul"), x, incl=True), lambda x: A.Prefixed(A.VarInt, x), lambda x: A.Prefixed(A.VarInt, x, incl=True),
          lambda x: A.FixedSized(12, x), lambda x: A.Padded(12, x), lambda x: A.Padded(12, x, pat=0x20),
          lambda x: A.Aligned(4, x), lambda x: A.Aligned(3, x, pat=0xaa), lambda x: A.Aligned(8, x), lambda x: A.AlignedStruct(4, A.Renamed("p", x), A.Renamed("q", A.Alias("Byte"))),
          lambda x: A.Optional(x), lambda x: A.Select(x, A.Alias("Int32ub")), lambda x: A.IfThenElse(A.Bin(">", A.T("_params", "k"), A.C(1)), x, A.Pass),
